@@ -336,17 +336,24 @@ def run_unit(unit):
             exp_max = float(np.nanmax(np.where(rp > 0, dl, np.nan)))
             same(part, 'grid-distortion-maximum', 'GridDistortion', condg, det0, [gd.data['max_distortion']], [exp_max], tol=1e-7)
         # ---------------- field curvature: Coddington along the real chief ray ----------------------------------------------------
-        if not has_mirror:
+        for img_shape in ([None, -45.0, 60.0] if not has_mirror else []):
             npf = 5
-            fc = guarded(part, 'field-curvature', 'FieldCurvature', cond0, det0, lambda: AN.FieldCurvature(o, wavelengths=[0.5876, 0.4861], num_points=npf))
+            if img_shape is None:
+                o_fc, sp_fc, condf = o, sp, cond0 + ',image=flat'
+            else:
+                sp_fc = dict(sp, img=S('sphere', R=img_shape))
+                o_fc = LZ.build(sp_fc)
+                part.states += 1
+                condf = cond0 + ',image=curved'
+            fc = guarded(part, 'field-curvature', 'FieldCurvature', condf, det0, lambda: AN.FieldCurvature(o_fc, wavelengths=[0.5876, 0.4861], num_points=npf))
             part.transitions += 1
             part.evals += 1
             if fc is not None:
                 for wi, w in enumerate((0.5876, 0.4861)):
-                    rows_w = prescription.rows(sp, lambda m, prev: LZ.ref_index(m, w, prev))
+                    rows_w = prescription.rows(sp_fc, lambda m, prev: LZ.ref_index(m, w, prev))
                     tref, sref = [], []
                     for Hy in np.linspace(0, 1, npf):
-                        r_ = coddington(rows_w, o, float(Hy), w)
+                        r_ = coddington(rows_w, o_fc, float(Hy), w)
                         tref.append(r_[0] if r_ else float('nan'))
                         sref.append(r_[1] if r_ else float('nan'))
                     for nm, got, ref in (('tangential', fc.data[wi][0], tref), ('sagittal', fc.data[wi][1], sref)):
@@ -355,7 +362,7 @@ def run_unit(unit):
                         okk = np.isfinite(ref) & (np.abs(ref) < 1e3)
                         if got.shape != ref.shape or np.any(np.abs(got[okk] - ref[okk]) > 2e-4 + 1e-4 * np.abs(ref[okk])):
                             i = int(np.argmax(np.where(okk, np.abs(got - ref), 0))) if got.shape == ref.shape else 0
-                            part.violation(PID, f'field-curvature-{nm}-is-coddington', 'FieldCurvature', cond0, dict(det0, wave=w, sample=i),
+                            part.violation(PID, f'field-curvature-{nm}-is-coddington', 'FieldCurvature', condf, dict(det0, wave=w, sample=i, image_radius=img_shape),
                                            observed=float(got[i]) if got.shape == ref.shape else list(got.shape), expected=float(ref[i]), tol=2e-4)
         # ---------------- pupil aberration ---------------------------------------------------------------------------------------
         npp = 5
